@@ -1,0 +1,70 @@
+// SPDX-FileCopyrightText: 2026 The Pion community <https://pion.ly>
+// SPDX-License-Identifier: MIT
+
+//go:build verif
+
+package ice
+
+import (
+	"context"
+	"net"
+
+	"github.com/pion/ice/v4/internal/taskloop"
+)
+
+// Exports for the external verification harness (/verif). Built only with -tags verif.
+// internal/taskloop cannot be imported from another module, so the harness reaches the
+// real Loop through these wrappers.
+
+// VerifLoop is the agent's task loop type.
+type VerifLoop = taskloop.Loop
+
+// VerifNewLoop starts a real task loop (taskloop.New).
+func VerifNewLoop(onClose func()) *VerifLoop {
+	return taskloop.New(onClose)
+}
+
+// VerifErrLoopClosed is taskloop.ErrClosed.
+var VerifErrLoopClosed = taskloop.ErrClosed
+
+// VerifTLRun submits fn to the agent's task loop exactly as the public API does
+// (a.loop.Run(a.loop, ...)) and waits for it.
+func VerifTLRun(a *Agent, fn func()) error {
+	return a.loop.Run(a.loop, func(context.Context) { fn() })
+}
+
+// VerifTLState is a comparable digest of the loop-owned agent state.
+type VerifTLState struct {
+	Checklist, PairsByID, Pending, Locals, Remotes int
+	NextPairID                                      uint64
+	LocalUfrag, LocalPwd, RemoteUfrag, RemotePwd    string
+	ConnectionState, GatheringState                 int
+}
+
+// VerifTLSnapshot reads the loop-owned state. It must be called from a task running on the loop.
+func VerifTLSnapshot(a *Agent) VerifTLState {
+	st := VerifTLState{
+		Checklist: len(a.checklist), PairsByID: len(a.pairsByID), Pending: len(a.pendingBindingRequests),
+		NextPairID: a.nextPairID,
+		LocalUfrag: a.localUfrag, LocalPwd: a.localPwd, RemoteUfrag: a.remoteUfrag, RemotePwd: a.remotePwd,
+		ConnectionState: int(a.connectionState), GatheringState: int(a.gatheringState),
+	}
+	for _, l := range a.localCandidates {
+		st.Locals += len(l)
+	}
+	for _, l := range a.remoteCandidates {
+		st.Remotes += len(l)
+	}
+
+	return st
+}
+
+// VerifTLAddLocal adds a local candidate bound to a harness-owned socket (Agent.addCandidate).
+func VerifTLAddLocal(a *Agent, cand Candidate, conn net.PacketConn) error {
+	return a.addCandidate(context.Background(), cand, conn)
+}
+
+// VerifTLSetControlling sets the agent's role flag.
+func VerifTLSetControlling(a *Agent, controlling bool) {
+	a.isControlling.Store(controlling)
+}
